@@ -57,8 +57,32 @@ def seeded():
     out.append("%d of %d seeded changes are detected by the committed checks." % (hit, len(rows)))
     return "\n".join(out)
 
+def status():
+    import sys
+    sys.path.insert(0, os.path.join(ROOT, "bin"))
+    import props
+    kf = json.load(open(os.path.join(ROOT, "known_findings.json")))["findings"]
+    out = ["| property | Lean modules built + audited (tie T = contains theorems on regenerated defs) | theorems audited | quick-tier op lines (configurations) | known / fixed findings | seeded changes detected |",
+           "|---|---|---|---|---|---|"]
+    for pid in sorted(props.PROPS):
+        c = props.PROPS[pid]
+        ev = os.path.join(ROOT, "evidence", pid + ".json")
+        e = json.load(open(ev)) if os.path.exists(ev) else {}
+        cov = e.get("coverage", {})
+        mods = c.get("lean_props") or [pid]
+        tieT = [m for m in mods if "_gen" in m or "_limb" in m or "_tower" in m or "_curve" in m or "_primes" in m or m in ("C06",)]
+        nk = sum(1 for f in kf if f["property"] == pid and f["status"] == "known")
+        nf = sum(1 for f in kf if f["property"] == pid and f["status"] == "fixed")
+        metas = [json.load(open(m)) for m in glob.glob(os.path.join(ROOT, "seeded", pid + "*", "meta.json"))]
+        hit = sum(1 for m in metas if m.get("detected"))
+        cfgs = c.get("configs") or ["default"]
+        out.append("| %s | %s%s | %s | %s (%s, tier %s) | %d / %d | %d / %d |" % (
+            pid, ", ".join(mods), (" — T: " + ", ".join(tieT)) if tieT else " — K only", cov.get("obligations", "?"),
+            cov.get("evaluations", "?"), "+".join(cfgs), e.get("tier", "?"), nk, nf, hit, len(metas)))
+    return "\n".join(out)
+
 p = os.path.join(ROOT, "DESIGN.md"); s = open(p).read()
-for tag, body in (("findings", findings()), ("seeded", seeded())):
+for tag, body in (("findings", findings()), ("seeded", seeded()), ("status", status())):
     b, e = "<!-- BEGIN %s -->" % tag, "<!-- END %s -->" % tag
     if b in s:
         i, j = s.index(b) + len(b), s.index(e)
